@@ -194,17 +194,25 @@ def same_line(got, want):
     return got == want or (want.endswith("\r") and got == want[:-1])
 
 
-def check_preview(plan, diff_text, cwd, before_files, after_files):
+def check_preview(plan, diff_text, cwd, before_files, after_files, decoded_parts=False):
     """before_files / after_files: dict abs path -> bytes (after_files None: there is no applied tree, only the
     'before' sides are judged).  Returns problems (clause in before/plus/line_after)."""
     probs = []
     out_of_scope = set()
+    per_key = {}
+    for m in plan["matches"]:
+        per_key[(resolve(cwd, m["file"]), m["line"])] = per_key.get((resolve(cwd, m["file"]), m["line"]), 0) + 1
     for m in plan["matches"]:
         data = before_files.get(resolve(cwd, m["file"]))
         if data is not None and 0 <= m["start"] <= len(data):
             ls = data.rfind(b"\n", 0, m["start"]) + 1
             if not is_valid_utf8(data[ls:m["start"]]):
-                out_of_scope.add((resolve(cwd, m["file"]), m["line"]))
+                key = (resolve(cwd, m["file"]), m["line"])
+                # a planner that decodes the text before / after the match separately (decoded_parts) is in scope on such a
+                # line as far as line_after goes, i.e. for single-hunk lines; render_diff's merge of several hunks still
+                # applies the raw byte_offset to the decoded line
+                if not decoded_parts or per_key[key] > 1:
+                    out_of_scope.add(key)
     for f, n, before, after in parse_diff(diff_text):
         path = resolve(cwd, f)
         if (path, n) in out_of_scope:
